@@ -77,7 +77,14 @@ func snapshotDir(dir string) map[string][]byte {
 		return out
 	}
 	for _, e := range es {
-		if e.Mode().IsRegular() {
+		mode := e.Mode()
+		if mode&os.ModeSymlink != 0 {
+			// a link to a regular file elsewhere is, for every reader, a file of that name with that content
+			if st, err := os.Stat(filepath.Join(dir, e.Name())); err == nil {
+				mode = st.Mode()
+			}
+		}
+		if mode.IsRegular() {
 			b, err := ioutil.ReadFile(filepath.Join(dir, e.Name()))
 			if err == nil {
 				out[e.Name()] = b
